@@ -212,3 +212,35 @@ func VerifC30UnaryStack() {
 	zzverif.Assert(String(stmt2) == s, "print-is-fixpoint")
 	zzverif.Assert(verifDump(stmt1) == verifDump(stmt2), "same-tree")
 }
+
+// VerifC30ClauseMatrix: every combination of the optional clauses of a SELECT (DISTINCT, WHERE,
+// GROUP BY, HAVING, TRIGGER (one of 3 forms), ORDER BY, LIMIT, a join, a table valued function in
+// FROM, a WITH prefix): the combinations the parser accepts must print to a text that parses again
+// to the same tree — the clauses have to come out in the order the grammar demands.
+func VerifC30ClauseMatrix() {
+	pick := func(name string, alts ...string) string { return alts[zzverif.Choice(name, len(alts))] }
+	with, distinct := "", ""
+	if zzverif.Param("FULL") == 1 { // FULL=0 (quick): no WITH prefix, no DISTINCT
+		with, distinct = pick("with", "", "WITH x AS (SELECT b FROM u) "), pick("distinct", "", "DISTINCT ")
+	}
+	sql := with +
+		"SELECT " + distinct + "a, COUNT(*) AS c FROM " +
+		pick("from", "t", "t JOIN u ON t.a = u.a", "tumble(source=>TABLE(t), time_field=>DESCRIPTOR(ts), window_length=>INTERVAL 1 SECOND) w") +
+		pick("where", "", " WHERE a > 1") +
+		pick("groupby", "", " GROUP BY a") +
+		pick("having", "", " HAVING COUNT(*) > 1") +
+		pick("trigger", "", " TRIGGER COUNTING 100", " TRIGGER ON WATERMARK, ON END OF STREAM") +
+		pick("orderby", "", " ORDER BY a DESC") +
+		pick("limit", "", " LIMIT 3")
+	stmt1, err := Parse(sql)
+	if err != nil {
+		zzverif.Reach("combination-not-in-the-grammar")
+		return
+	}
+	s := String(stmt1)
+	stmt2, err2 := Parse(s)
+	zzverif.Reach("printed")
+	zzverif.Assert(err2 == nil, "printed-text-parses")
+	zzverif.Assert(String(stmt2) == s, "print-is-fixpoint")
+	zzverif.Assert(verifDump(stmt1) == verifDump(stmt2), "same-tree")
+}
